@@ -86,7 +86,10 @@ def isSetopNode : Query → Bool
       C01-F21 aggregation / DISTINCT / grouping sets   (C21: NULL keys and NULL inputs of accumulators)
       C01-F23 subquery expressions, no aggregation     (C23: NULL operands of IN / scalar subqueries)
       C01-F22 joins, no aggregation, no subquery       (C22: NULL join keys / NULL-extended rows)
-      C01-F24a set operations below the top level       (C24: NULLs not distinct) -/
+      C01-F24a set operations below the top level       (C24: NULLs not distinct)
+    and, for failures that survive the NULL neutraliser, neutraliser `noopt` (the same case with every optimizer rule
+    switched off passes the oracle):
+      C01-F03 an optimizer rule changes the answer      (C03: PredicatePushdown OR-factoring, JoinReorder over outer joins, …) -/
 def attrC01 : AttrFn := fun c o spec =>
   match o with
   | .ok out =>
@@ -98,6 +101,7 @@ def attrC01 : AttrFn := fun c o spec =>
       else if anyNode isJoinNode c.plan then some "C01-F22"
       else if anyNode isSetopNode c.plan then some "C01-F24a"
       else none
+    else if nooptPasses c then some "C01-F03"
     else let _ := out; none
   | _ => none
 
